@@ -35,7 +35,7 @@ CLAIMED = {
   design_ref="DESIGN.md §6 C05", note="read_next/buffer_master bodies are exercised only through the enumerated master-free documents; hang-freedom rests on the ranking argument (T5).",
   technique=T + "panic-freedom of each reader unit on fully symbolic inputs"),
  "C06": dict(
-  text='Decision logic only. (i) validate_tag_path over spec Tree for every chain of open masters x every known/unknown-size pattern x every declared element: accepted iff the declared path matches the chain left after closing the trailing unknown-size masters the element ends (never while a known-size master is open inside); (ii) header unit with symbolic id/size/mask/limit at stack depth 0 and 1; (iii) containment on stacks up to depth 3 (every known/unknown pattern that matters, symbolic sizes): oversized iff it overruns ANY known-size ancestor; (iv) implied ancestors of a mid-document start are stored as End at offset 0; (v) with EOF closing off nothing is emitted at end of input. The emission mechanics (End order, closing loop, EOF closing) live in read_next: NOT covered.',
+  text='Decision logic only. (i) validate_tag_path over spec Tree for every chain of open masters x every known/unknown-size pattern x every declared element: accepted iff the declared path matches the chain left after closing the trailing unknown-size masters the element ends (never while a known-size master is open inside); (ii) header unit with symbolic id/size/mask/limit at stack depth 0 (deeper seeded stacks with a fully symbolic header are intractable); (iii) containment on stacks up to depth 3 (every known/unknown pattern that matters, symbolic sizes): oversized iff it overruns ANY known-size ancestor; (iv) implied ancestors of a mid-document start are stored as End at offset 0; (v) with EOF closing off nothing is emitted at end of input. The emission mechanics (End order, closing loop, EOF closing) live in read_next: NOT covered.',
   design_ref="DESIGN.md §6 C06/C07", note='Partial claim (decision logic). Spec Tree (4 master levels), 1-byte ids. In (i) the finite id domain is enumerated as constants (no symbolic slot).',
   technique=T + "hierarchy/containment checks of the header unit vs pattern oracle on seeded stacks"),
  "C07": dict(
@@ -52,12 +52,12 @@ CLAIMED = {
   design_ref="DESIGN.md §6 C10", note='Per-call contract with Inv_w asserted as post-condition; sequences by induction (T5). flush()/into_inner() as a whole are intractable (out of memory) and NOT covered.',
   technique=T + "flush contract of one public write from seeded writer states"),
  "C11": dict(
-  text='(a) validate_tag_path == declared-path pattern semantics for ONE fully symbolic path of 0..3 parts (Id or Global(min,max) with any bounds, in any position) against every chain of 0..3 known-size masters; (b) the same function over Tree with unknown-size masters in every pattern (ids enumerated); (c) reader call site at depth 0/1 with symbolic header: HierarchyError carrying the offending id iff the remaining chain does not match; is_ended_by table.',
-  design_ref="DESIGN.md §6 C11", note='Writer call site uses the same function (known-size chains). Multi-id symbolic spec tables outside.',
+  text='(a) validate_tag_path == declared-path pattern semantics for ONE fully symbolic path of 0..3 parts (Id or Global(min,max) with any bounds, in any position) against every chain of 0..3 known-size masters; (b) the same function over Tree with unknown-size masters in every pattern (ids enumerated); (c) reader call site at depth 0 with symbolic header: HierarchyError carrying the offending id iff the remaining chain does not match; (d) writer call site: misplaced known-size start / leaf and misplaced unknown-size start (both calls) rejected with UnexpectedTag and no trace, global within range accepted; is_ended_by table.',
+  design_ref="DESIGN.md §6 C11", note='Multi-id symbolic spec tables outside. Reader call site with open masters is covered through the validator unit (b) plus the depth-0 header unit, not end to end.',
   technique=T + "validator vs DP pattern-matching oracle, symbolic path and chain"),
  "C12": dict(
-  text="(a) a header cut anywhere (fill 0..15, stale bytes symbolic) yields the EOF error with start == cursor, id present iff complete, no size - never corruption; (b) a two-element document cut at EVERY position, payload symbolic: "
-       "exactly the contained tags, None on a boundary, else EOF with accurate start/id/size/partial data; one cut under 1-byte reads.",
+  text="(a) a header cut anywhere (fill 0..15, stale bytes symbolic) yields the EOF error with start == cursor, id present iff complete, no size - never corruption; (b) a two-element document cut at positions 0,2,3,4,5,7,8 of 9 (positions 1 and 6 end in tool failures and are not registered), payload symbolic: "
+       "exactly the contained tags, None on a boundary, else EOF with accurate start/id/size/partial data.",
   design_ref="DESIGN.md §6 C12", note="Ends of open masters at boundary cuts need read_next with masters: NOT covered. Flat spec, capacity 32/16.",
   technique=T + "truncated header unit + public next() on every cut of an enumerated document"),
  "C13": dict(
@@ -66,7 +66,7 @@ CLAIMED = {
   technique=T + "header unit: fault-set oracle under every tolerance mask"),
  "C14": dict(
   text="try_recover from a seeded state: 1 junk byte (any non-id value) before a valid child that fits Root at its original size => Ok, cursor +1 exactly, known size +1, next header is the planted one; "
-       "arbitrary 3-byte remainder / nothing left: never backwards, never past the end, no panic, Err only EOF/ReadError. 2 junk bytes in thorough.",
+       "arbitrary 3-byte remainder / nothing left: never backwards, never past the end, no panic, Err only EOF/ReadError; a zero byte is never swallowed as id padding (header unit). Two or more junk bytes: NOT covered (did not finish).",
   design_ref="DESIGN.md §6 C14", note="End-to-end 'all remaining tags as in the undamaged document' = post-state equality + C03/C06 steps (T5). Spec Mini.",
   technique=T + "try_recover unit from seeded iterator state"),
  "C15": dict(
@@ -89,8 +89,8 @@ CLAIMED = {
   technique=T + "derive-macro output vs declared table, all 2^64 ids"),
  "C19": dict(
   text="One harness per failing kind: snapshot (buffer, open masters, destination) -> failing call -> Err and state == snapshot: size not representable (binary/utf8 width 1, 126..129 bytes), unknown size on non-master, "
-       "malformed raw id (all ids), End of a non-innermost / non-open master (all ids), Full master with a misplaced child (public write).",
-  design_ref="DESIGN.md §6 C19", note="State equality => all later behaviour equal. Misplaced-tag kind through the Full-child harness and C11.",
+       "malformed raw id (all ids), End of a non-innermost / non-open master (all ids), misplaced tag (known-size start, leaf, unknown-size start through both calls). Full master with an invalid child: NOT covered (recursive public write intractable).",
+  design_ref="DESIGN.md §6 C19", note="State equality => all later behaviour equal.",
   technique=T + "state-snapshot equality around each rejected writer call"),
 }
 NOT_APPLICABLE = {
